@@ -198,6 +198,7 @@ def concretize(case, rule):
     return dict(old=old, new=new, entries=entries, unreliable=unreliable, term=term)
 
 
+ALT_NAME = "src dir/caf\u00e9.js"
 NONL = "\\ No newline at end of file"
 
 
@@ -281,6 +282,9 @@ def git_diff(old_text, new_text, U, name="f.js", extra=()):
                        cwd=d, stdout=subprocess.PIPE, stderr=subprocess.PIPE, text=True,
                        env=dict(os.environ, GIT_CONFIG_NOSYSTEM="1", HOME=d))
     out = p.stdout.replace("a/a/" + name, "a/" + name).replace("b/b/" + name, "b/" + name)
+    # (the same for the quoted spelling git uses for names with non-ASCII bytes)
+    qn = "".join(chr(b) if 0x20 <= b < 0x80 and b not in (0x22, 0x5c) else "\\%03o" % b for b in name.encode())
+    out = out.replace("a/a/" + qn, "a/" + qn).replace("b/b/" + qn, "b/" + qn)
     import shutil
     shutil.rmtree(d, ignore_errors=True)
     return out
@@ -363,14 +367,23 @@ def replay(chk, cases, what, U_of=lambda ci: (0, 1, 3)[ci % 3], cli_sample=0):
             case, conc, diff, U, ids = meta[ci]
             old_text = old_text_of(conc)
             new_text = new_text_of(conc)
-            gd = git_diff(old_text, new_text, U)
+            # every third case under a name git writes as a quoted string in the diff headers (non-ASCII letter, space)
+            alt = ALT_NAME if ci % 3 == 0 else "f.js"
+            gd = git_diff(old_text, new_text, U, name=alt)
             if hunk_body(gd) != hunk_body(diff):
                 raise vlib.ToolError("diff synthesiser disagrees with git on case %d (U=%d):\n%s\n---\n%s" % (ci, U, gd, diff))
+            if alt != "f.js" and '"b/' not in gd:
+                raise vlib.ToolError("git did not quote the path %r" % alt)
             for mode, args in (("list", ["list"]), ("run", [])):
-                cli_cases.append({"id": "%d-%s" % (ci, mode), "files": {"f.js": new_text}, "diff": gd, "args": args,
+                cli_cases.append({"id": "%d-%s" % (ci, mode), "files": {alt: new_text}, "diff": gd, "args": args,
                                   "terminal": False})
         tdir = vlib.subdir("dt-cli-traces-" + what)
         cres = vlib.run_cli(cli_cases, trace_dir=tdir)
+        # results under the alternative name are judged like the others: spell the name back
+        for cid, r in cres.items():
+            for k in ("list", "report"):
+                if r.get(k) and ALT_NAME in r[k]:
+                    r[k] = json.loads(json.dumps(r[k], ensure_ascii=False).replace(ALT_NAME, "f.js"))
         # impl -> spec: the recorded walk and flags of every listed run against DiffTouch (TraceDiff.tla)
         import runtrace
         trs = {}
